@@ -177,13 +177,27 @@ func runChild(dir string, tag string, req batchReq) (results []histResult, crash
 		return nil, req.First, "cannot start child: " + err.Error()
 	}
 	go func() { done <- cmd.Wait() }()
+	// The child writes a record when it starts a history and one when it has finished it
+	// (milliseconds apart): a result file that has not grown for a minute means the
+	// history that is running hangs. (Overall cap: ten minutes per batch.)
 	var err error
-	select {
-	case err = <-done:
-	case <-time.After(10 * time.Minute):
-		cmd.Process.Kill()
-		err = fmt.Errorf("child timed out (implementation wedged?)")
-		<-done
+	start, lastGrowth, lastSize := time.Now(), time.Now(), int64(-1)
+wait:
+	for {
+		select {
+		case err = <-done:
+			break wait
+		case <-time.After(time.Second):
+			if fi, e := os.Stat(rf); e == nil && fi.Size() != lastSize {
+				lastSize, lastGrowth = fi.Size(), time.Now()
+			}
+			if time.Since(lastGrowth) > time.Minute || time.Since(start) > 10*time.Minute {
+				cmd.Process.Kill()
+				err = fmt.Errorf("child timed out (implementation wedged?)")
+				<-done
+				break wait
+			}
+		}
 	}
 	started := -1
 	if f, e := os.Open(rf); e == nil {
@@ -334,6 +348,14 @@ func shape(s Scenario) string {
 	return b.String()
 }
 
+// enoughCrashes: once six histories have crashed or hung the implementation the verdict is
+// settled; the remaining batches are not run (every hang costs its watchdog's minute).
+func enoughCrashes(mu *sync.Mutex, crashes *[]hcommon.Disagreement) bool {
+	mu.Lock()
+	defer mu.Unlock()
+	return len(*crashes) >= 6
+}
+
 func TestFamily(t *testing.T) {
 	if *flagBatch != "" {
 		t.Skip("child")
@@ -399,7 +421,7 @@ func TestFamily(t *testing.T) {
 			wg.Add(1)
 			go func(wk, first, count int) {
 				defer wg.Done()
-				for count > 0 {
+				for count > 0 && !enoughCrashes(&mu, &crashes) {
 					rs, cid, tail := runChild(*flagOut, fmt.Sprint(wk), batchReq{Property: *flagProperty, Seed: *flagSeed, First: first, Count: count, Len: ln})
 					mu.Lock()
 					all = append(all, rs...)
@@ -456,7 +478,7 @@ func TestFamily(t *testing.T) {
 			wg.Add(1)
 			go func(wk int, part []Scenario) {
 				defer wg.Done()
-				for len(part) > 0 {
+				for len(part) > 0 && !enoughCrashes(&mu, &crashes) {
 					rs, cid, tail := runChild(*flagOut, fmt.Sprintf("enum%d", wk), batchReq{Property: *flagProperty, Seed: *flagSeed, Replay: part})
 					mu.Lock()
 					all = append(all, rs...)
@@ -609,9 +631,10 @@ func shrink(r histResult, step int) (hcommon.Disagreement, bool) {
 		return st >= 0, st, a, b, false
 	}
 	budget := 60
+	deadline := time.Now().Add(3 * time.Minute) // a candidate that hangs costs its watchdog's minute
 	// remove chunks, then single ops, never the last one
-	for chunk := len(cur.Ops) / 2; chunk >= 1 && budget > 0; chunk /= 2 {
-		for i := 0; i+chunk < len(cur.Ops) && budget > 0; {
+	for chunk := len(cur.Ops) / 2; chunk >= 1 && budget > 0 && time.Now().Before(deadline); chunk /= 2 {
+		for i := 0; i+chunk < len(cur.Ops) && budget > 0 && time.Now().Before(deadline); {
 			cand := cur
 			cand.Ops = append(append([]map[string]any{}, cur.Ops[:i]...), cur.Ops[i+chunk:]...)
 			budget--
